@@ -38,7 +38,7 @@ prop('C09',
               'A-POOL: inner.GetSize(i) is the signed size of file i',
               'aligned reads: a Read never leaves the 64 KiB block it starts in (32 KiB consumer buffers; assumed for io.CopyBuffer, see DESIGN C09)',
               'environment faults (failing Seek on the old file, failing signature load) are outside the quantifier'],
-     not_decided='alignment inside io.Copy with ReadFrom destinations; deleted files (the pool\'s error path); getBlockValidator is trusted (sticky error not verified)')
+     not_decided='alignment inside io.Copy with ReadFrom destinations; deleted files (the pool\'s error path); what the signature load does inside getBlockValidator (sk.open, ReadSignature, ComputeHashInfo, NewBlockValidator are in-context contracts there: a failure is an environment fault, success gives a non-nil value) -- the caching and the sticky error of getBlockValidator itself are checked')
 
 PATCHER = [('/pwr/patcher', 'makeWop'), ('/pwr/patcher', '(*savingPatcher).isFullFileOp'), ('/pwr/patcher', '(*savingPatcher).checkOp'),
            ('/pwr/patcher', '(*savingPatcher).skipFile'), ('/pwr/patcher', '(*savingPatcher).processFile'), ('/pwr/patcher', '(*savingPatcher).Resume')]
